@@ -29,7 +29,7 @@ REPO = os.environ.get("VERIF_REPO", "/repo")
 LEAN = os.environ.get("VERIF_LEAN_DIR", os.path.join(VERIF, "lean"))
 BUILD = os.environ.get("VERIF_BUILD_DIR", os.path.join(VERIF, ".build"))
 EVID = os.environ.get("VERIF_EVIDENCE_DIR", os.path.join(VERIF, "evidence"))
-REPLAYS = os.path.join(BUILD, "replays")
+REPLAYS = os.path.join(BUILD, "replays") if REPO == "/repo" else os.path.join(BUILD, "replays", hashlib.sha1(REPO.encode()).hexdigest()[:8])
 ALLOWED_AXIOMS = {"propext", "Classical.choice", "Quot.sound"}
 
 GOENV = dict(os.environ)
@@ -161,6 +161,12 @@ class Check:
 
     def prove(self, area=None, extract=True):
         """Tie 1 and the theorems: returns True iff every obligation of this property checked."""
+        # extraction + build + audit are one critical section: concurrent checks (possibly against different
+        # VERIF_REPO trees) share lean/Dawn/Extracted and must not see each other's regenerated facts
+        with Lock("prove"):
+            return self._prove(area, extract)
+
+    def _prove(self, area, extract):
         ob = load_obligations()[self.pid]
         area = area or ob["area"]
         if extract and ob.get("extract", True):
